@@ -5,6 +5,9 @@ import hashlib, json
 import vlib
 
 CONTENTS = [b"", b"a", b"bb", b"hello", b"tree:a,bb"]
+# larger than one io.Copy chunk (32 KiB): a writer that commits whatever prefix it has received when the OTHER writer of a
+# tee'd Set fails shows as a truncated blob under the full content digest; used in about one case in eight
+BIG = bytes((i * 7 + (i >> 8)) & 0xFF for i in range(40000))
 RKEYS = ["r1", "r2", "r3"]
 BKEYS = ["k1", "k2"]
 
@@ -14,6 +17,17 @@ def dg(c):
 
 
 def gen_case(r, local_only):
+    global CONTENTS
+    small = CONTENTS
+    if not local_only and r.chance(1, 8):
+        CONTENTS = small + [BIG, BIG]
+    try:
+        return gen_case_(r, local_only)
+    finally:
+        CONTENTS = small
+
+
+def gen_case_(r, local_only):
     ops = []
     nf = 0 if local_only else r.below(7)
     faults = [r.choice(["n", "n", "n", "f", "e", "4"]) for _ in range(nf)]
@@ -114,6 +128,18 @@ def oracles(line, hfields, findings, pid):
                     else:
                         viol.append(("op %d: after a successful result write the remote lacks blob %s.. although Cas.Write of it "
                                      "returned ok in this process and the guard (local-only before the write) is false" % (i, d[:12]), i))
+        # C07/C08, model-free: every blob visible under a content digest (in either local cache or in the remote) has exactly
+        # that content -- also after a faulted Set (a writer that saw a clean EOF on a truncated stream would commit a prefix)
+        for store, items in st.items():
+            for k, v in items.items():
+                if k.startswith("cas/") and len(k) == 4 + 64 and all(ch in "0123456789abcdef" for ch in k[4:]):
+                    try:
+                        data = b"" if v == "-" else bytes.fromhex(v)
+                    except ValueError:
+                        continue
+                    if dg(data) != k[4:] and prev.get(store, {}).get(k) != v:
+                        viol.append(("op %d (%s): store %s exposes cas/%s.. holding %d bytes that hash to %s.." % (
+                            i, op[:60], store, k[4:16], len(data), dg(data)[:12]), i))
         prev = st
     return viol, known
 
@@ -143,6 +169,13 @@ def run_inprocess(out, pid, n, harness, findings, local_only=False):
     r = vlib.Rng(vlib.seed() * 31337 + (7 if local_only else 8))
     drv = vlib.build_driver("store")
     lines = [gen_case(r, local_only) for _ in range(n)]
+    if not local_only:
+        # fixed cases run first: a blob larger than one copy chunk written through the wrapper while exactly one of the two
+        # writers fails (remote Put fails early / after reading the body, at each position of the fault list), then loaded
+        # back on the same machine and on machine B
+        d = dg(BIG)
+        for faults in ("e", "n,e", "n,n,e", "f", "n,f", "n,n,f", "4", "n,4"):
+            lines.insert(0, "case\t%s\tc:A:w:write:%s:%s\tc:A:w:load:%s\tc:A:l:load:%s\tc:B:w:load:%s" % (faults, d, vlib.hx(BIG), d, d, d))
     hout, mout = run_cases(lines, harness, drv)
     stats = {"sequences": n, "ops": 0, "distinct": 0, "mismatching_sequences": 0, "oracle_failures": 0, "known": 0,
              "remote_calls": 0, "faulted_calls": 0, "samples": []}
